@@ -332,3 +332,25 @@ def finish(ctx, obligations, discharged, axioms, proof_failures, build_s, truste
           f"evaluations={ctx.evaluations} nontrivial={len(ctx.nontrivial)} mismatches={len(ctx.mismatches)} "
           f"failing={len(ctx.failing)} violations={violations} wall={ctx.elapsed():.1f}s")
     return 1 if violations else 0
+
+
+def generic_replay(ctx, path, run):
+    """
+    Replay for the cross-cutting checks: every case is a deterministic function of (seed, tier), so the
+    recorded run is regenerated and the recorded failing input is looked up among the failing inputs of
+    the re-run (same detector / configuration / step / clause).  Exit 1 = reproduced, 0 = not reproduced.
+    """
+    rec = json.load(open(path))
+    print(json.dumps({k: rec[k] for k in rec if k not in ("history", "items_from_spawn", "batches")}, indent=1, default=str)[:3000])
+    if rec.get("kind") != "failing-input":
+        print("REPLAY: this file names a broken proof obligation / correspondence, there is no input to re-run")
+        return 0
+    ctx.seed, ctx.tier = int(rec["seed"]), rec["tier"]
+    run(ctx)
+    keys = [k for k in ("detector", "config", "step", "clause", "what", "parameter", "permutation", "election", "vector") if k in rec]
+    def same(f):
+        return all(json.dumps(f.get(k), default=str, sort_keys=True) == json.dumps(rec.get(k), default=str, sort_keys=True) for k in keys)
+    hit = [f for f in ctx.failing if same(f)]
+    print(f"REPLAY: re-ran seed={ctx.seed} tier={ctx.tier}: {len(ctx.failing)} failing input(s), "
+          f"{'REPRODUCED' if hit else 'NOT reproduced'} the recorded one (matched on {keys})")
+    return 1 if hit else 0
